@@ -349,7 +349,9 @@ def enumerate_two(tier):
     for lay in layouts:
         for c in combos_two():
             for mid, tail, restart in variants:
-                hs.append(dict(c, srv="C", two=1, layout=lay, mid=mid, tail=tail, restart=restart))
+                # thorough: two servers (by layout) so that neither carries more than ~750 databases
+                srv = "D" if tier != "quick" and lay in ("mixed", "reopened", "prior") else "C"
+                hs.append(dict(c, srv=srv, two=1, layout=lay, mid=mid, tail=tail, restart=restart))
     return hs
 
 
